@@ -2,7 +2,7 @@
 import itertools, json, random, threading
 from .. import tlc, common, sched, srv_adapter as S
 
-INV = ["Exclusive", "Serial", "Consecutive", "NoDup", "ClockExact", "Released", "RefusedNothing"]
+INV = ["Exclusive", "Serial", "Consecutive", "NoDup", "ClockExact", "Released", "RefusedNothing", "StoreCurrent"]
 STOP, NSTEPS = 3, 2
 
 
@@ -13,12 +13,12 @@ ERR_BODIES = {     # kind "err/<variant>": (endpoint, raw body) the handler reje
 }
 
 
-def cons(kinds, dev='{}', abort=None):
+def cons(kinds, dev='{}', abort=None, store=False):
     rs = "abc"[:len(kinds)]
     K = " @@ ".join('"%s" :> "%s"' % (r, k.split("/")[0].split("!")[0]) for r, k in zip(rs, kinds))
     A = " @@ ".join('"%s" :> %d' % (r, (abort or {}).get(r, 0)) for r in rs)
     return dict(Reqs="{" + ",".join('"%s"' % r for r in rs) + "}", Kind="(" + K + ")", Abort="(" + A + ")",
-                N=str(NSTEPS), Stop=str(STOP), Dev=dev)
+                N=str(NSTEPS), Stop=str(STOP), Dev=dev, Store="TRUE" if store else "FALSE")
 
 
 def times_of(body):
@@ -35,10 +35,11 @@ def times_of(body):
     return out
 
 
-def execute(kinds, abort, schedule, fine=False):
+def execute(kinds, abort, schedule, fine=False, store=False):
     """run the requests of the given kinds on a fresh session under the forced schedule;
-    returns (events, outcome dict)"""
-    need_adapter = any(k == "save" or k.endswith("!fault") for k in kinds)
+    returns (events, outcome dict).  store: the server has an external state adapter, and the copy of the session state and
+    its write are scheduling points of their own (S, P)"""
+    need_adapter = store or any(k == "save" or k.endswith("!fault") for k in kinds)
     srv = S.Srv(stop=STOP, adapter=need_adapter, base_constants=True)
     try:
         srv.start("i1", 500)
@@ -49,7 +50,7 @@ def execute(kinds, abort, schedule, fine=False):
         def probe():
             st = inst.session_state
             return bool(st["lock"]), int(round(float(st["step"])))
-        ctl = sched.Controller(probe)
+        ctl = sched.Controller(probe, extra_anchors=sched.SAVE_ANCHORS if store else None)
         inst.session_state = sched.TracedState(inst.session_state, ctl)
 
         fault = threading.local()
@@ -124,6 +125,14 @@ def execute(kinds, abort, schedule, fine=False):
             else:
                 out["resp"][rid] = (w.result[0], times_of(w.result[1]), w.result[1][:120])
         out["lock"], out["clock"] = probe()
+        if store:
+            import glob, jsonpickle
+            files = glob.glob(srv.state_dir + "/" + uid + ".json")
+            try:
+                with open(files[0]) as f:
+                    out["stored_clock"] = int(round(float(jsonpickle.loads(f.read())["data"]["step"])))
+            except Exception as e:
+                out["stored_clock"] = "unreadable: %s" % e
         st, d = srv.req("GET", "/%s/session-results" % uid)
         out["results_times"] = sorted(float(t) for t in d.get("sm", {}).get("base", {}).get("equations", {}).get("s", {})) if st == 200 and isinstance(d, dict) else None
         st, d = srv.step("i1", 0, "base")
@@ -161,6 +170,8 @@ def judge(kinds, events, out):
             bad.append(("(4) clock advanced by %d for %d steps returned" % (out["clock"] - 1, len(alltimes)), sorted(alltimes)))
         if out["results_times"] is not None and sorted(set(alltimes)) != out["results_times"]:
             bad.append(("(4) session-results times differ from the steps returned", (sorted(alltimes), out["results_times"])))
+    if "stored_clock" in out and out["stored_clock"] != out["clock"]:
+        bad.append(("(6) the external store holds an older session than the one the clients were answered from", {"stored clock": out["stored_clock"], "session clock": out["clock"]}))
     if out["lock"]:
         bad.append(("(5) lock still set after all requests ended", out["lock"]))
     st, row = out["followup"]
@@ -201,25 +212,36 @@ def run(tier, replay_file=None):
         triples += [(k, {}) for k in itertools.product(KINDS, repeat=3)]
     R.cov["states"], R.cov["transitions"] = 0, 0
     plans = []
-    for kinds, abort in combos + triples:
-        # 1. design: all interleavings of the intended protocol satisfy the five clauses
-        mc = tlc.run("StepLock", cons(kinds, abort=abort), invariants=INV + ["Emit"], spec="Spec", workers=1)
+    # on a server with an external state adapter every stepping request externalises the session: the copy (S) and the write (P)
+    # are steps of their own, and the store must hold the current session when the requests have ended
+    stored = [(("steps", "step"), {}), (("step", "steps"), {}), (("step", "step"), {}), (("stream", "step"), {}), (("steps", "steps"), {}), (("stream", "step"), {"a": 1})]
+    for kinds, abort, store in [(k, a, False) for k, a in combos + triples] + [(k, a, True) for k, a in stored]:
+        # 1. design: all interleavings of the intended protocol satisfy the clauses
+        mc = tlc.run("StepLock", cons(kinds, abort=abort, store=store), invariants=INV + ["Emit"], spec="Spec", workers=1)
         if mc.violation:
             R.violation("spec:" + mc.violation, {"kinds": kinds, "trace": mc.trace[:2000]})
         R.cov["states"] += mc.distinct
         R.cov["transitions"] += mc.generated
-        scheds = sorted({tuple(o["sched"]) for o in mc.emitted})
-        plans.append((kinds, abort, scheds))
+        real = lambda sc: tuple(e[0] for e in sc if e[1] == "x")       # the steps the implementation has a scheduling point for
+        scheds = sorted({real(o["sched"]) for o in mc.emitted})
+        late = []
+        if store:
+            # schedules under which a server that externalises AFTER releasing the lock leaves an older session in the store
+            dv = tlc.run("StepLock", cons(kinds, '{"D19c_save_after_unlock"}', abort=abort, store=True), invariants=["Emit"], spec="Spec", workers=1)
+            late = sorted({real(o["sched"]) for o in dv.emitted if o["stored"] != o["clock"]})
+            R.cov["schedules_store_race"] = R.cov.get("schedules_store_race", 0) + len(late)
+        plans.append((kinds, abort, scheds, store, late))
     # the listed deviations of the old code must violate the clauses in the spec (the spec can tell them apart)
     for dev, kinds, inv in (('{"D14b_step_nolock"}', ("step", "step"), "Serial"), ('{"D14b_check_then_lock"}', ("steps", "steps"), "Exclusive"),
                             ('{"D14a_stream_no_unlock"}', ("stream", "step"), "Released"),
-                            ('{"D14c_close_unlocks"}', ("stream", "steps", "step"), "Exclusive")):
-        dv = tlc.run("StepLock", cons(kinds, dev), invariants=INV, view="View", spec="Spec")
+                            ('{"D14c_close_unlocks"}', ("stream", "steps", "step"), "Exclusive"),
+                            ('{"D19c_save_after_unlock"}', ("steps", "step"), "StoreCurrent")):
+        dv = tlc.run("StepLock", cons(kinds, dev, store=inv == "StoreCurrent"), invariants=INV, view="View", spec="Spec")
         if dv.violation is None:
             raise common.Machinery("deviation %s does not violate any clause in the spec" % dev)
     # 2. spec -> code: force TLC's schedules; 3. code -> spec: validate the recorded traces with TLC
     n_sched = 0
-    for kinds, abort, scheds in plans:
+    for kinds, abort, scheds, store, late in plans:
         cap = (12 if len(kinds) == 2 else 8) if quick else (80 if len(kinds) == 2 else 40)
         if quick and any(k.startswith("err/") for k in kinds):
             cap = 4
@@ -233,26 +255,28 @@ def run(tier, replay_file=None):
             shaped = [sc for sc in scheds if window(sc)]
             R.cov["schedules_close_window"] = R.cov.get("schedules_close_window", 0) + len(shaped)
             pick = list(pick) + [sc for sc in (shaped if not quick or len(shaped) <= 30 else rng.sample(shaped, 30)) if sc not in pick]
+        if store:
+            pick = list(pick) + [sc for sc in (late if len(late) <= cap else rng.sample(late, cap)) if sc not in pick]
         traces = []
         runs = [(list(sc), False) for sc in pick]
-        if len(kinds) == 2 and not any(k.startswith("err/") for k in kinds) and not abort:
+        if len(kinds) == 2 and not any(k.startswith("err/") for k in kinds) and not abort and not store:
             # line-level preemption INSIDE try_lock for the first two stepping requests a fresh session sees:
             # a runs i lines, b runs j lines, then they alternate line by line
             rng2 = range(0, 4) if quick else range(0, 7)
             runs += [(["a"] * i + ["b"] * j, True) for i in rng2 for j in rng2]
         for sc, fine in runs:
-            events, out = execute(kinds, abort, list(sc), fine)
+            events, out = execute(kinds, abort, list(sc), fine, store)
             n_sched += 1
             R.add("traces_validated_against_impl")
             bad = judge(kinds, events, out)
             if bad:
-                R.violation(bad[0][0], {"kinds": kinds, "abort": abort, "schedule": list(sc), "lines_inside_try_lock_are_steps": fine, "detail": bad[0][1],
+                R.violation(bad[0][0], {"kinds": kinds, "abort": abort, "external_state_adapter": store, "schedule": list(sc), "lines_inside_try_lock_are_steps": fine, "detail": bad[0][1],
                                         "more": [b[0] for b in bad[1:4]], "events": events, "responses": out["resp"]})
             traces.append(events)
             if len(R.violations) >= 12:
                 break
         if traces:
-            c = cons(kinds, abort=abort)
+            c = cons(kinds, abort=abort, store=store)
             c["Traces"] = tlc.tla([[{"r": e["r"], "act": e["act"], "lock": e["lock"], "clock": e["clock"]} for e in t] for t in traces])
             tv = tlc.run("StepLockTrace", c, init="TraceInit", next="TraceNext", invariants=INV, deadlock=True, workers=1)
             R.add("tlc_trace_validations", len(traces))
@@ -263,7 +287,7 @@ def run(tier, replay_file=None):
                 t = int(tids[-1]) if tids else 1
                 li = int(ls[-1]) if ls else 1
                 R.violation("recorded trace is not a behaviour of StepLock (%s)" % tv.violation,
-                            {"kinds": kinds, "abort": abort, "unexplained_event_index": li,
+                            {"kinds": kinds, "abort": abort, "external_state_adapter": store, "unexplained_event_index": li,
                              "unexplained_event": traces[t - 1][li - 1] if li <= len(traces[t - 1]) else "trace ended with unfinished requests",
                              "schedule": list(runs[t - 1][0]), "lines_inside_try_lock_are_steps": runs[t - 1][1], "events": traces[t - 1], "tlc": tv.trace[-600:]})
         if len(R.violations) >= 12:
